@@ -48,7 +48,7 @@ func genSignerSpec(r *Rng, cheap bool) SignerSpec {
 // dispatch looks at key 265 only, so such a profile is by design not reachable
 // through Evidence.UnmarshalCOSE and the binding clause would compare apples
 // with pears.
-var profFamilies = []string{"p1", "p2", "p1", "p2", "xp2", "xw", "xu"}
+var profFamilies = []string{"p1", "p2", "p1", "p2", "xp2", "xw", "xu", "xc"}
 
 func (evidWorld) Gen(prop, tier string, idx int, r *Rng) *Trace {
 	var cfg EvidCfg
@@ -404,6 +404,11 @@ func (evidWorld) Exec(prop string, t *Trace) *Result {
 				model.replaced = false
 				model.relaxed = false
 				res.Probes["sign_failed"]++
+				if c19 && op.F == "" && fired == 0 && !sfired && v == nil {
+					// valid claims, a healthy signer, nothing injected into this call: whatever failed
+					// earlier (in this history or another one) must not stand in its way
+					res.violate("C19", "sign-of-valid-claims-fails", "", i, "%s of valid claims with a healthy signer and no fault in this call failed: %v", op.K, err)
+				}
 			} else {
 				held = append(held, heldTok{ret: tok, snap: append([]byte{}, tok...), at: i})
 				ok := model.adopt(tok)
@@ -817,6 +822,7 @@ func pairGate(res *Result, i int, name string, b []byte, d, dv func([]byte) (psa
 	if c1 == nil {
 		return
 	}
+	s1 := structObs(c1) // before anything has called Validate() on the plain decoder's result
 	v := c1.Validate()
 	if v != nil {
 		// the same (invalid) claims-set, re-encoded without validation in either serialisation, must not pass a gate
@@ -846,6 +852,8 @@ func pairGate(res *Result, i int, name string, b []byte, d, dv func([]byte) (psa
 	gateValid++
 	if e2 != nil {
 		res.violate("C08", "decgate-"+name+"-rejects-valid", "", i, "the validating %s decoder rejected what the plain decoder + Validate() accept: %v; input %x", name, e2, head(b, 512))
+	} else if s2 := structObs(c2); s1 != s2 {
+		res.violate("C08", "decgate-"+name+"-differs", "struct", i, "validating and plain %s decode hand back differently populated claims-sets:\n plain:      %s\n validating: %s", name, s1, s2)
 	} else if a, bb := fullObs(c1), fullObs(c2); a != bb {
 		res.violate("C08", "decgate-"+name+"-differs", "", i, "validating and plain %s decode disagree:\n %s\n %s", name, a, bb)
 	}
@@ -900,6 +908,7 @@ func decodeGates(res *Result, i int, tok []byte) (gateInvalid, gateValid int) {
 		}
 		return
 	}
+	sD := structObs(d.Claims)
 	vv := safely(func() string { return okOrErr(d.Claims.Validate()) })
 	if vv != "ok" {
 		gateInvalid++
@@ -912,6 +921,8 @@ func decodeGates(res *Result, i int, tok []byte) (gateInvalid, gateValid int) {
 		gateValid++
 		if dve != nil {
 			res.violate("C08", "decgate-cose-rejects-valid", "", i, "DecodeAndValidateEvidenceFromCOSE rejected what DecodeEvidenceFromCOSE + Validate accept: %v", dve)
+		} else if sV := structObs(dv.Claims); sD != sV {
+			res.violate("C08", "decgate-cose-differs", "struct", i, "validating and plain COSE decode hand back differently populated claims-sets:\n plain:      %s\n validating: %s", sD, sV)
 		} else if a, b := fullObs(d.Claims), fullObs(dv.Claims); a != b {
 			res.violate("C08", "decgate-cose-differs", "", i, "validating and plain COSE decode disagree:\n %s\n %s", a, b)
 		}
